@@ -164,6 +164,7 @@ pub fn run(outdir: &Path, tier: &str, seed: u64, shards: usize, _replay: Option<
                     prelude: String::new(),
                     exposed: vec![],
                     custom: vec![("enum".into(), format!("crate::de_dbg_ser::<w::q::{}>(json)", rust_name))],
+                    outer: String::new(),
                 });
                 let strings = probe_strings(values, &mut rng, if tier == "thorough" { 60 } else { 25 });
                 plan.push((k, values.clone(), norm, strings));
